@@ -444,7 +444,34 @@ def required_keep(df):
     return (~excl) & M64
 
 
-def check_leaper(ctx, label, terms, deltas, where):
+def fold_leaper(ix, e):
+    """{square: attack set} by folding the stored expression for idx = 0..63 (the loop variable however it is spelt), or
+    the reason it cannot be folded."""
+    out = {}
+    for sq in range(64):
+        env = {}
+        for x in walk(e):
+            if isinstance(x, tuple) and x[0] == "field" and x[-2:] == ("0", "0") and x[1][0] == "as" and "next" in expr_str(x[1]):
+                env[expr_str(x)] = sq
+            if isinstance(x, tuple) and x[0] == "var" and x[1] in ("idx", "square", "sq", "i", "index"):
+                env[expr_str(x)] = sq
+        try:
+            v = fold_tree(ix, e, env)
+        except Undef as u:
+            return str(u)
+        if not isinstance(v, int):
+            return "not a number"
+        out[sq] = v
+    return out
+
+
+def check_leaper(ctx, label, terms, deltas, where, folded=None):
+    if isinstance(folded, dict):
+        bad = [(G.square_name(sq), "0x%016x" % v, "0x%016x" % G.leaper(sq, deltas)) for sq, v in sorted(folded.items()) if v != G.leaper(sq, deltas)]
+        ctx.check(not bad, "%s:table" % label, "%s attack set, folded from the initialiser expression, is exact for all 64 squares" % label, where,
+                  bad_what="%s attack set is wrong for %d square(s), e.g. %s (got, expected)" % (label, len(bad), bad[:3]))
+        if not bad:
+            return  # exact for every square: how the expression is spelt does not matter
     if terms is None:
         ctx.bad("%s:unreadable" % label, "%s attack initializer is not built from shifts of the origin bit, |, and & !<file constants> (cannot decide)" % label, where)
         return
@@ -484,7 +511,7 @@ def rule_leapers(ctx):
             if s["lhs"]["p"] == ["*"]:
                 init = sym.rvalue(s["rv"])
         terms = shift_terms(init, origin_test_for(b, sym)) if init else None
-        check_leaper(ctx, name, terms, deltas, b.where(0))
+        check_leaper(ctx, name, terms, deltas, b.where(0), fold_leaper(ix, init) if init else None)
         rd = ctx.body("<board::piece::%s::%s as board::piece::Precomputed>::get_attacks" % (name, name.capitalize()))
         r = ctx.sym(rd).local(0)
         st = [x[1] for x in walk(r) if isinstance(x, tuple) and x[0] == "static"]
@@ -503,7 +530,7 @@ def rule_leapers(ctx):
     ctx.check(disc == {"White": 0, "Black": 1}, "Color-discriminants", "Color::White = 0, Color::Black = 1 (row index of the pawn table, index of the Zobrist colour dimension)", bad_what="Color discriminants are %s" % disc)
     for ci, cname in col.items():
         terms = shift_terms(rows.get(ci), origin_test_for(pb, psym)) if rows.get(ci) else None
-        check_leaper(ctx, "pawn-%s" % cname, terms, G.PAWN_DELTAS[cname], pb.where(0))
+        check_leaper(ctx, "pawn-%s" % cname, terms, G.PAWN_DELTAS[cname], pb.where(0), fold_leaper(ix, rows.get(ci)) if rows.get(ci) else None)
     prd = ctx.body("<board::piece::pawn::Pawn as board::piece::PrecomputedColor>::get_attacks")
     r = ctx.sym(prd).local(0)
     ctx.check("color" in expr_str(r) and "Square::u8(square)" in expr_str(r), "pawn:reader", "Pawn::get_attacks reads ATTACKS[color][square.u8()]", prd.where(0), bad_what="Pawn::get_attacks returns `%s`" % expr_str(r)[:100])
